@@ -21,6 +21,7 @@ import (
 
 type Options struct {
 	Yield     bool // yield/sleep inside stream Write and SendDatagram (hostile scheduling for concurrent writers)
+	YieldAll  bool `json:",omitempty"` // with Yield: EVERY stream Write sleeps 50 us before it takes the wire and 50 us after it released it (SendDatagram: before), so that between two Write calls of one goroutine the other writers get their turn (near-deterministic interleaving)
 	ReadChunk int  // the receive stream hands out at most this many bytes per Read (0 = no limit)
 	Seed      uint64
 }
@@ -69,6 +70,10 @@ func mix(z uint64) uint64 {
 
 func (c *Conn) yield() {
 	if !c.opt.Yield {
+		return
+	}
+	if c.opt.YieldAll {
+		time.Sleep(50 * time.Microsecond)
 		return
 	}
 	k := mix(c.opt.Seed + atomic.AddUint64(&c.ctr, 1))
@@ -147,7 +152,7 @@ func (c *Conn) CloseWithError(quic.ApplicationErrorCode, string) error {
 	return nil
 }
 
-func (c *Conn) Context() context.Context               { return c.ctx }
+func (c *Conn) Context() context.Context              { return c.ctx }
 func (c *Conn) ConnectionState() quic.ConnectionState { return quic.ConnectionState{} }
 
 func (c *Conn) SendDatagram(p []byte) error {
@@ -179,6 +184,14 @@ type sendStream struct{ c *Conn }
 
 func (s *sendStream) StreamID() quic.StreamID { return 2 }
 func (s *sendStream) Write(p []byte) (int, error) {
+	n, err := s.write(p)
+	if s.c.opt.Yield && s.c.opt.YieldAll { // the bytes are accepted and on the wire: let the other writers run before returning
+		time.Sleep(50 * time.Microsecond)
+	}
+	return n, err
+}
+
+func (s *sendStream) write(p []byte) (int, error) {
 	s.c.yield()
 	s.c.wire.Lock()
 	defer s.c.wire.Unlock()
@@ -196,10 +209,10 @@ func (s *sendStream) Write(p []byte) (int, error) {
 	peer.mu.Unlock()
 	return len(p), nil
 }
-func (s *sendStream) Close() error                       { return nil }
-func (s *sendStream) CancelWrite(quic.StreamErrorCode)   {}
-func (s *sendStream) Context() context.Context           { return s.c.ctx }
-func (s *sendStream) SetWriteDeadline(time.Time) error   { return nil }
+func (s *sendStream) Close() error                     { return nil }
+func (s *sendStream) CancelWrite(quic.StreamErrorCode) {}
+func (s *sendStream) Context() context.Context         { return s.c.ctx }
+func (s *sendStream) SetWriteDeadline(time.Time) error { return nil }
 
 type recvStream struct{ c *Conn }
 
@@ -228,7 +241,7 @@ func (r *recvStream) Read(p []byte) (int, error) {
 	c.inbuf = c.inbuf[n:]
 	return n, nil
 }
-func (r *recvStream) CancelRead(quic.StreamErrorCode)  {}
-func (r *recvStream) SetReadDeadline(time.Time) error  { return nil }
+func (r *recvStream) CancelRead(quic.StreamErrorCode) {}
+func (r *recvStream) SetReadDeadline(time.Time) error { return nil }
 
 var _ io.Reader = (*recvStream)(nil)
